@@ -130,6 +130,11 @@ func (s *Stream) ExecuteFlow(
 			if shortCircuitNode, err = s.ExecuteFlow(flow, apiStream, targetNode, actions); err != nil {
 				return shortCircuitNode, fmt.Errorf("failed to execute flow: %w", err)
 			}
+			if shortCircuitNode != nil {
+				// a processor down this connection answered the request: the rest of the request
+				// path (sibling connections included) is skipped and the hand-over node is kept
+				return shortCircuitNode, nil
+			}
 		}
 	}
 	return shortCircuitNode, nil
